@@ -24,5 +24,5 @@ CHECK = {
         "at distance == radius either coverage verdict is tolerated",
         "a case in which the table changed during the gossip call is discarded and counted",
     ],
-    "required_classes": {"quick": [">8-covered-candidates", "source-among-closest", "unknown-radius-among-nearest-32", "radius-updated-twice", "gossip-sent", "back-to-back-ping", "net:beacon", "net:state", "source-is-covered-candidate-beyond-the-closest-four", "covered-node-just-outside-the-32-nearest", ">12-covered-candidates-at-distinct-log-distances", "radius-updated-by-message-announcing-newer-record", "local-radius-not-a-palindrome"]},
+    "required_classes": {"quick": [">8-covered-candidates", "source-among-closest", "unknown-radius-among-nearest-32", "radius-updated-twice", "gossip-sent", "back-to-back-ping", "net:beacon", "net:state", "source-is-covered-candidate-beyond-the-closest-four", "covered-node-just-outside-the-32-nearest", ">12-covered-candidates-at-distinct-log-distances", "radius-updated-by-message-announcing-newer-record", "local-radius-not-a-palindrome", "local-radius-changed-between-two-pongs", "record-of-a-table-node-added-by-hand-again"]},
 }
